@@ -5,4 +5,4 @@ Extraction Language OCaml.
 Separate Extraction handle_message name_key wire_labels lower_labels tsig_alg_len get16 alg_name_wire
   parse_uncompressed_name spec_decode_name name_of
   zone_new zone_build req_simple answer_rec labels_of neg_ttl respond_w decode_msg
-  tree_of_entries flat_of_tree first_problem s_opt_reached s_first_name.
+  tree_of_entries tree_of_history flat_of_tree first_problem s_opt_reached s_first_name.
